@@ -968,9 +968,20 @@ func record(out *vh.Out, d *driver, c *Case, malformed bool) {
 
 func main() {
 	recordFirst := flag.Bool("recordfirst", false, "also run the actor that records before applying (enabled by checks/c09.py when the finding C09-snapshot-before-apply is open)")
+	family := flag.String("family", "persist", "persist: sequential histories against MV.C09.PersistModel | notice: re-create on notice with a slow storage against MV.C09.OrderModel (notice.go)")
 	f := vh.ParseFlags()
 	d := &driver{}
 	if f.Replay != "" {
+		var hdr struct {
+			Sub string `json:"sub"`
+		}
+		if b, err := os.ReadFile(f.Replay); err == nil {
+			_ = json.Unmarshal(b, &hdr)
+		}
+		if hdr.Sub == "notice" {
+			noticeReplay(f.Replay)
+			return
+		}
 		var c Case
 		vh.LoadReplayCase(f.Replay, &c)
 		want := append([]Res(nil), c.Impl...)
@@ -982,6 +993,10 @@ func main() {
 		if len(v) > 0 {
 			os.Exit(1)
 		}
+		return
+	}
+	if *family == "notice" {
+		noticeMain(f)
 		return
 	}
 	out := vh.NewOut(f.Out, "persist", "From MV Require Import Lib.ListX C09.PersistModel C09.PersistRun.", "case", "mismatches", f.Seed,
